@@ -11,6 +11,7 @@ library factors / prefix / dimension must equal the model's.
 """
 from __future__ import annotations
 
+import math
 from fractions import Fraction
 
 from hypothesis import strategies as st
@@ -110,6 +111,9 @@ def budget(tier):
 
 EXPS = st.sampled_from([-4, -3, -2, -1, 0, 1, 2, 2, 3, 4])
 NZ = st.sampled_from([-3, -2, -1, 2, 3, 4])
+# exponents that take a prefix's scale out of the range of a float (10**-336, 2**1200 ...): prefix
+# arithmetic is arithmetic on exponents and must not care
+BIG = st.sampled_from([-40, -25, -14, -13, 13, 14, 25, 40])
 
 
 def _leaf(kind):
@@ -144,8 +148,12 @@ def _tree(kind, depth):
         st.builds(lambda a, b, n: ["r", ["*", ["^", a, n], ["^", b, n]], n], sub, sub, NZ),
         st.builds(lambda a, b, n: ["r", ["/", ["^", a, n], ["^", b, n]], n], _leaf(kind), _leaf(kind), NZ),
     ]
+    ops.append(st.builds(lambda a, n: ["^", a, n], _leaf(kind), BIG))
     if kind == "unit":
         ops.append(st.builds(lambda p, a: ["p", p, a], st.sampled_from(PFX10), sub))
+        # prefixes of the two bases meeting, one side at an extreme scale, in both orders
+        ops.append(st.builds(lambda p, a, q, b, n, flip: ["*", ["^", ["p", q, b], n], ["p", p, a]] if flip else ["*", ["p", p, a], ["^", ["p", q, b], n]],
+                             st.sampled_from(PREFIX_NAMES), _leaf(kind), st.sampled_from(PREFIX_NAMES), _leaf(kind), BIG, st.booleans()))
         # dimensionless units that still carry a prefix ((k*x)/x, k*One) and their powers
         ops.append(st.builds(lambda p, a, n: ["^", ["/", ["p", p, a], a], n], st.sampled_from(PREFIX_NAMES), _leaf(kind), EXPS))
         ops.append(st.builds(lambda p, n: ["^", ["p", p, ["one"]], n], st.sampled_from(PREFIX_NAMES), EXPS))
@@ -229,8 +237,23 @@ def _pair(draw, kind):
     return {"k": kind, "rel": rel, "a": a, "b": b}
 
 
+@st.composite
+def _pair_extreme(draw):
+    """Products and quotients of prefixed units of both prefix bases in which some operand's scale
+    lies far outside the range of a float, against a rewriting of the same expression."""
+    def operand():
+        leaf = ["p", draw(st.sampled_from(PREFIX_NAMES)), ["u", draw(st.sampled_from(UNIT_NAMES))]]
+        n = draw(st.one_of(BIG, EXPS))
+        return leaf if n == 1 else ["^", leaf, n]
+    a = operand()
+    for _ in range(draw(st.integers(1, 3))):
+        b = operand()
+        a = [draw(st.sampled_from("*/")), a, b] if draw(st.booleans()) else [draw(st.sampled_from("*/")), b, a]
+    return {"k": "unit", "rel": "rewrite", "a": a, "b": draw(_rewrite("unit", a))}
+
+
 def strategy(tier):
-    return st.one_of(_pair("unit"), _pair("unit"), _pair("unit"), _pair("dim"), _pair("p10"), _pair("p2"))
+    return st.one_of(_pair("unit"), _pair("unit"), _pair("unit"), _pair("dim"), _pair("p10"), _pair("p2"), _pair_extreme())
 
 
 # ---------------------------------------------------------------- dimension / prefix interpreters
@@ -376,17 +399,14 @@ def _eval_side(kind, t, out, tag):
             elif obj.prefix is not m.IdentityPrefix:
                 out.fail("C02:unit:prefix-identity", f"{model.render(t)}: identity prefix expected, got {obj.prefix!r}")
         else:
-            want = Fraction(1)
-            for b, e in mv[1].items():
-                want *= Fraction(b) ** int(e) if e.denominator == 1 else Fraction(float(b) ** float(e))
-            try:
-                have = obj.prefix.quantify()
-                rel = abs(float(have) / float(want) - 1)
-            except (OverflowError, ZeroDivisionError):
-                out.inconclusive = "float-range"
-                rel = 0
-            if rel > 1e-9:
-                out.fail("C02:unit:mixed-prefix-scale", f"{model.render(t)}: prefix scale {have} vs model {float(want)} rel {rel:.3g}")
+            # compared as logarithms, so that scales beyond the range of a float (10**-336) are
+            # decided as well: a relative scale error r is a difference of log(1+r) ~ r
+            want = sum(float(e) * math.log(b) for b, e in mv[1].items())
+            have = float(obj.prefix.exponent) * math.log(obj.prefix.base) if obj.prefix.base else 0.0
+            if abs(want) > 2e4:
+                out.inconclusive = "float-range"   # a float exponent no longer resolves 1e-9
+            elif not abs(have - want) <= 1e-9:
+                out.fail("C02:unit:mixed-prefix-scale", f"{model.render(t)}: log of prefix scale {have!r} ({obj.prefix!r}) vs model {want!r}")
         return obj, model.m_key(mv), mixed, not (mv[0] or mv[1])
     if kind == "dim":
         if tuple(obj.exponents) != tuple(mv):
